@@ -369,6 +369,53 @@ theorem unquoteString_quoteAll (bs : Bytes) (hb : IsBytes bs) : unquoteString (q
 
 /-! ### non-vacuity -/
 
+/-! ### conversions between strings and rune slices -/
+
+theorem decode_valid (bs : Bytes) : validRune (decode bs).1 := by
+  unfold decode
+  repeat' split
+  all_goals simp only [validRune, runeError, isCont, Bool.and_eq_true, decide_eq_true_eq] at *
+  all_goals (repeat' split)
+  all_goals (first | omega | (simp only [] at *; omega) | (simp at *; omega))
+
+theorem runesAux_valid (fuel off : Nat) (s : Bytes) : ∀ p ∈ runesAux fuel off s, validRune p.2 := by
+  induction fuel generalizing off s with
+  | zero => intro p hp; simp [runesAux] at hp
+  | succ f ih =>
+    cases s with
+    | nil => intro p hp; simp [runesAux] at hp
+    | cons b bs =>
+      intro p hp
+      simp only [runesAux, List.mem_cons] at hp
+      rcases hp with rfl | hp
+      · exact decode_valid _
+      · exact ih _ _ p hp
+
+/-- **toRunes_valid.** Whatever the bytes are, `[]rune(s)` holds Unicode scalar values only (invalid
+    sequences give U+FFFD). -/
+theorem toRunes_valid (s : Bytes) : ∀ r ∈ toRunes s, validRune r := by
+  intro r hr
+  simp only [toRunes, List.mem_map] at hr
+  obtain ⟨p, hp, rfl⟩ := hr
+  exact runesAux_valid _ _ _ p hp
+
+theorem offsets_snd (off : Nat) (rs : List Nat) : (offsets off rs).map Prod.snd = rs := by
+  induction rs generalizing off with
+  | nil => rfl
+  | cons r rs ih => simp [offsets, ih]
+
+/-- **runes_of_string.** `[]rune(string(rs)) = rs` for every sequence of Unicode scalar values. -/
+theorem runes_of_string (rs : List Nat) (hv : ∀ r ∈ rs, validRune r) : toRunes (encodeAll rs) = rs := by
+  simp only [toRunes, range_roundtrip rs hv, offsets_snd]
+
+/-- **rune_conversion_idempotent.** For EVERY byte string, converting to runes and back and to runes
+    again changes nothing: `[]rune(string([]rune(s))) = []rune(s)`. -/
+theorem rune_conversion_idempotent (s : Bytes) : toRunes (encodeAll (toRunes s)) = toRunes s :=
+  runes_of_string _ (toRunes_valid s)
+
+example : toRunes [0x68, 0xC3, 0xA9, 0xFF] = [0x68, 0xE9, 0xFFFD] := by decide
+
+
 -- "héllo": h é(C3 A9) l l o
 example : runes [0x68, 0xC3, 0xA9, 0x6C, 0x6C, 0x6F] = [(0, 0x68), (1, 0xE9), (3, 0x6C), (4, 0x6C), (5, 0x6F)] := by decide
 -- invalid byte: a FF b → offsets 0 1 2, U+FFFD in the middle
@@ -398,3 +445,6 @@ end Goat.Props.C13
 #print axioms Goat.Props.C13.concat_index
 #print axioms Goat.Props.C13.concat_slices
 #print axioms Goat.Props.C13.unquoteString_quoteAll
+#print axioms Goat.Props.C13.toRunes_valid
+#print axioms Goat.Props.C13.runes_of_string
+#print axioms Goat.Props.C13.rune_conversion_idempotent
